@@ -2,7 +2,6 @@ import Bmc.Proofs.C03
 import Bmc.Proofs.GenLoops.BuildAndSend
 import Bmc.Proofs.GenEnc.V2Session
 import Bmc.Proofs.GenEnc.Message
-import Bmc.Proofs.GenEnc.AES128CBC
 #print axioms Bmc.Proofs.C03.datagram_shape
 #print axioms Bmc.Proofs.C03.integrity_pad
 #print axioms Bmc.Proofs.C03.payload_decrypts
@@ -17,6 +16,3 @@ import Bmc.Proofs.GenEnc.AES128CBC
 #print axioms Bmc.Proofs.GenLoops.V2Session_SendCommand_events_eq
 #print axioms Bmc.Proofs.GenEnc.V2Session_enc_eq
 #print axioms Bmc.Proofs.GenEnc.Message_enc_eq
-#print axioms Bmc.Proofs.GenEnc.AES128CBC_enc_param
-#print axioms Bmc.Proofs.GenEnc.AES128CBC_enc_eq
-#print axioms Bmc.Proofs.GenEnc.AES128CBC_enc_randErr
